@@ -884,14 +884,19 @@ def c12_metal(tier, rnd):
             inner = mk_use("m2", 1, [], tag="article") if nested else []
             m1 = [Open(dm="m1", name="div", sattr=[]), Text("A\n ", al.call("content", d), "\n"), Open(ds="s", name="i", sattr=[]),
                   Text("d", al.call("content", d)), CLOSE] + inner + [Text("z", al.call("content", d)), CLOSE]
-            for fl in (False, True):
+            for fl, oe in ((False, False), (True, False), (False, True)):
                 fill = [Open(fs="s", name="b", sattr=[]), Text("F\n  ", al.call("content", d)), CLOSE] if fl else []
-                main = [Text("pre\n ", al.call("content", d)), Open(um=("m1", 1, False), name="section", sattr=[]), Text("ign")] + fill + \
-                    [CLOSE, Text("post", al.call("content", d))]
+                use = [Open(um=("m1", 1, False), name="section", sattr=[]), Text("ign")] + fill + [CLOSE]
+                if oe:
+                    # a failure inside the macro is caught by the caller's on-error; a later failure (after the element, or
+                    # in a second use of the macro) is reported with its own records only
+                    use = [Open(name="p", oe=(False, const(S("a"))), sattr=[])] + use + [CLOSE, Text("\n ")] + \
+                        mk_use("m1", 1, [], tag="article")
+                main = [Text("pre\n ", al.call("content", d))] + use + [Text("post", al.call("content", d))]
                 items = list(main)
                 lib = m1 + [Text("\n")] + m2
                 progs.append(program(items + lib, dict(al.dom), main=len(items), libs=[{"from": len(items) + 1, "to": len(items) + len(lib)}],
-                                     fam="C12metal:%s:%s:%s" % (c, nested, fl)))
+                                     fam="C12metal:%s:%s:%s:%s" % (c, nested, fl, oe)))
     return progs
 
 
